@@ -1,9 +1,60 @@
+import ScenicModel.Gen.LTL
+import ScenicModel.Model.LTLBuild
 import Driver.Util
-/-! line protocol for the C11 model (stub: replaced when the property's model is built) -/
+/-!
+line protocol for the C11 model; the monitor configuration, the acceptance rule and the class → constructor
+table are the ones regenerated from the sources.
+
+  mon  k len <tree>      all traces of `len` steps over `k` atoms (in code order): per trace the `len` verdicts
+                         after each update, traces separated by nothing (one digit per verdict)
+  mon1 rows <tree>       one trace, rows like `10,01,11` (step,atom): the verdicts
+  sat  k len <tree>      per trace 1/0: the finite-trace semantics `sat` on the full trace
+  run  k len <tree>      per trace the outcome of the static rule: `A`, `S` (scene check fails) or `R<t>`
+  dyn  k len <tree>      per trace the outcome of a `require` executed in a running scenario
+  cls  <tree>            `okZero(crisp=false) okZero(crisp=true) prop`
+-/
 namespace Driver.C11
-open Driver
+open Driver Scenic.LTL
+
+def cfg : MonCfg := Scenic.Gen.LTL.monCfg
+def rule : Rule := Scenic.Gen.LTL.rule
+def cmap : CtorMap := Scenic.Gen.LTL.ctorMap
+
+def bit (b : Bool) : String := if b then "1" else "0"
+
+def parseRows (s : String) : List (List Bool) :=
+  (s.splitOn ",").map fun r => r.toList.map (· == '1')
+
+def showOutcome : Outcome → String
+  | .accepted => "A"
+  | .rejectedAt t => s!"R{t}"
+
+def verdicts (f : F) (σ : Trace) (len : Nat) : String :=
+  String.join ((List.range len).map fun t => toString (evalAt cfg σ (t + 1) f 0))
+
+def allTraces (k len : Nat) (g : Trace → String) (sep : String) : String :=
+  sep.intercalate ((List.range (2 ^ (k * len))).map fun x => g (traceOfCode k x))
+
+def withTree (k len : String) (toks : List String) (g : Nat → Nat → F → String) : String :=
+  match k.toNat?, len.toNat?, build cmap toks with
+  | some k, some len, some f => if k * len ≤ 12 then g k len f else "too-big"
+  | _, _, _ => "bad-tree"
 
 def handle : List String → String
+  | "mon" :: k :: len :: toks => withTree k len toks fun k len f => allTraces k len (fun σ => verdicts f σ len) ""
+  | "mon1" :: rows :: toks =>
+    match build cmap toks with
+    | some f => let r := parseRows rows; verdicts f (ofRows r) r.length
+    | none => "bad-tree"
+  | "sat" :: k :: len :: toks => withTree k len toks fun k len f => allTraces k len (fun σ => bit (sat σ len f 0)) ""
+  | "run" :: k :: len :: toks => withTree k len toks fun k len f =>
+      allTraces k len (fun σ => if sceneOK cfg rule f σ then showOutcome (run cfg rule f σ len) else "S") " "
+  | "dyn" :: k :: len :: toks => withTree k len toks fun k len f =>
+      allTraces k len (fun σ => showOutcome (runDynamic cfg rule f σ len)) " "
+  | "cls" :: toks =>
+    match build cmap toks with
+    | some f => s!"{bit (f.okZero cfg false)} {bit (f.okZero cfg true)} {bit f.prop}"
+    | none => "bad-tree"
   | _ => "bad-op"
 
 end Driver.C11
